@@ -688,3 +688,30 @@ def iso_week_date(days):
 def product_assignments(keys, values="FUK"):
     for combo in itertools.product(values, repeat=len(keys)):
         yield dict(zip(keys, combo))
+
+
+# ----------------------------------------------------------------------------------------------------------------------
+# AST surgery (used by generators of transformed / faulted expressions)
+
+
+def sites(node, path=()):
+    """all (path, node) pairs; a path is a tuple of child indexes"""
+    yield path, node
+    if not is_atom(node):
+        for index, child in enumerate(node[1]):
+            yield from sites(child, path + (index,))
+
+
+def node_at(root, path):
+    node = root
+    for index in path:
+        node = node[1][index]
+    return node
+
+
+def replace_at(node, path, func):
+    if not path:
+        return func(node)
+    children = list(node[1])
+    children[path[0]] = replace_at(children[path[0]], path[1:], func)
+    return [node[0], children]
